@@ -155,8 +155,10 @@ def emit_tu(cases):
         src.append("static std::string case_%d(bool pre, const std::vector<k2::script_ev>& s) {" % i)
         src.append("  return k2::run_case([] { return %s; }, pre, s);" % to_cpp(e))
         src.append("}")
+        src.append("static std::string traits_%d() { return k2::traits_of([] { return %s; }); }" % (i, to_cpp(e)))
     src.append("static k2::case_fn CASES[] = {%s};" % ", ".join("case_%d" % i for i in range(len(cases))))
-    src.append("int main() { return k2::main_loop(CASES, %d); }" % len(cases))
+    src.append("static k2::traits_fn TRAITS[] = {%s};" % ", ".join("traits_%d" % i for i in range(len(cases))))
+    src.append("int main() { return k2::main_loop(CASES, %d, TRAITS); }" % len(cases))
     return "\n".join(src) + "\n"
 
 
